@@ -94,7 +94,7 @@ class Spec(PropSpec):
     partial_note = ("c07_crash_image is proved for every block size, coin and draw sequence, for the alphabet without "
                     "create_dir_all / remove_dir_all / remove_dir (these three are covered by the FsDurable model, the "
                     "correspondence and the oracle only); it holds outside the known classes RenameFile, RenameSelf, RenameDir, StaleHandle, Recreate, "
-                    "KindSwap, OpenOptsInvalid, RootOp")
+                    "KindSwap, RootOp")
 
     def gen_cases(self, ctx):
         rng = ctx.rng
